@@ -247,7 +247,15 @@ func (c *canceller) Preempt(ctx context.Context, req *jsonrpc.Request) (result a
 		if err := internaljson.Unmarshal(req.Params, &params); err != nil {
 			return nil, err
 		}
-		id, err := jsonrpc2.MakeID(params.RequestID)
+		// Decode the request ID from its raw encoding, so that integer IDs
+		// beyond 2^53 identify the right request.
+		var raw struct {
+			RequestID json.RawMessage `json:"requestId"`
+		}
+		if err := internaljson.Unmarshal(req.Params, &raw); err != nil {
+			return nil, err
+		}
+		id, err := jsonrpc2.DecodeID(raw.RequestID)
 		if err != nil {
 			return nil, err
 		}
